@@ -216,6 +216,15 @@ func TestVerif_C07_TokenCreate(t *testing.T) {
 			if fairIndex(rt, "roleGlob", 4) == 0 {
 				role.allowedGlob = []string{"p*"}
 			}
+			// a role bounded by patterns alone, used half of the time by a request that names no policies at all
+			globOnly := fairIndex(rt, "roleGlobOnly", 5) == 0
+			if globOnly {
+				role.allowed, role.allowedGlob = nil, []string{"p*"}
+				if rapid.Bool().Draw(rt, "globOnlyRequestNamesNoPolicies") {
+					reqPol = nil
+					delete(data, "policies")
+				}
+			}
 			role.orphan = fairIndex(rt, "roleOrphan", 2) == 0
 			if fairIndex(rt, "rolePeriod", 4) == 0 {
 				role.period = 15 * time.Minute
